@@ -494,6 +494,18 @@ def select_arms(root):
                 out.extend(arms)
     return out
 
+def select_preconditions(root):
+    """The `, if <cond>` preconditions of the branches of a tokio::select!, in branch order.  The macro normalises a branch
+    without one to `if true` and emits, per branch, `if !<cond> { disabled |= 1 << n }` before polling; returns the list of
+    <cond> expression nodes (a literal `true` for a branch that is always enabled)."""
+    out = []
+    for n, ctx in walk(root):
+        if n['k'] == 'If' and n.get('els') is None and n['cond']['k'] == 'Unary' and n['cond'].get('op') == 'Not':
+            sp = n.get('sp') or []
+            if len(sp) > 5 and 'select' in str(sp[5]) and any(x['k'] == 'AssignOp' and str(x.get('op')).startswith('BitOr') for x, _ in walk(n['then'])):
+                out.append(n['cond']['e'])
+    return out
+
 # ---------------------------------------------------------------------------------------
 # constant evaluation (integers / strings) through consts, enum casts and simple arithmetic
 
